@@ -30,7 +30,7 @@ UNIT = Unit(
         Fn(**K.POS_SET),
         Fn("src/state.rs", "AtomicPosition", "reset", sig_rewrites=[K.SELF_MUT], rewrites=[K.AORD(1)],
            ensures=[("C07-reset-zero", "final(self).pos@ == 0"),
-                    ("frame", "final(self).capacity@ == old(self).capacity@ && final(self).start == old(self).start")]),
+                    ("C05-C07-reset-keeps-the-token-bucket", "final(self).capacity@ == old(self).capacity@ && final(self).start == old(self).start")]),
         # ---- ProgressState
         Fn("src/state.rs", "ProgressState", "is_finished", ensures=[("def", "r == self.finished()")]),
         Fn("src/state.rs", "ProgressState", "pos", rewrites=[K.AORD(1)], ensures=[("C07-pos", "r == self.pos.pos@")]),
